@@ -502,6 +502,7 @@ pub fn run(ctx: &mut Ctx) {
     super::replay_corpus(ctx, replay);
     ctx.run_suite(&SegSuite);
     ctx.run_suite(&super::c02bp::BackPressureSuite);
+    ctx.run_suite(&EofInHeadSuite);
     unbounded_head(ctx);
     ctx.assume("heads of 1000-1299 bytes are not generated: their acceptance legitimately depends on read sizes");
     ctx.assume("the codec is exercised inside a real tunnel session (Tunnel + HttpDownstream + scripted forwarder); its observable request is the forwarder's view (destination, user agent) for CONNECT and the origin's view for plain HTTP");
@@ -512,6 +513,101 @@ pub fn replay(ctx: &mut Ctx, suite: &str, case: &Value) -> bool {
     match suite {
         "segmentation" => ctx.replay_suite(&SegSuite, case),
         "bidirectional-back-pressure" => ctx.replay_suite(&super::c02bp::BackPressureSuite, case),
+        "end-of-stream-inside-head" => ctx.replay_suite(&EofInHeadSuite, case),
         _ => false,
+    }
+}
+
+// ---------------------------------------------------------------------------------------------
+// the end of the client's stream inside a request head
+
+#[derive(Serialize, Deserialize, Debug, Clone)]
+pub struct EofCase {
+    pub head: Case,
+    /// where the head stops (mapped strictly inside it)
+    pub stop: u16,
+    /// cuts of the delivered prefix
+    pub cuts: Vec<u16>,
+    /// true: the client ends only its sending direction; false: it drops the connection
+    pub half_close: bool,
+}
+
+pub struct EofInHeadSuite;
+
+impl Suite for EofInHeadSuite {
+    type Case = EofCase;
+    fn name(&self) -> &'static str {
+        "end-of-stream-inside-head"
+    }
+    fn rule(&self) -> String {
+        "a proper prefix (1 byte .. all but the last byte) of a request head from the grammar of suite segmentation, delivered to a real HTTP/1.1 tunnel session in 1-4 pieces (each after the endpoint went idle), after which the client ends its sending direction or drops the connection; the endpoint's side of the transport counts the reads that return end-of-stream (and fails the 1000th so that a loop which never yields comes to an end); oracle: the session ends within 5 virtual seconds, it has read the end of the stream at most 3 times, the forwarder was never called and no 2xx response was produced; non-trivial = every case".into()
+    }
+    fn strategy(&self, t: Tier) -> BoxedStrategy<EofCase> {
+        (SegSuite.strategy(t), any::<u16>(), prop::collection::vec(any::<u16>(), 0..4), any::<bool>())
+            .prop_filter_map("an ordinary head", |(head, stop, cuts, half_close)| {
+                if head.raw_head.is_some() || head.head().len() > 900 {
+                    return None;
+                }
+                Some(EofCase { head, stop, cuts, half_close })
+            })
+            .boxed()
+    }
+    fn cases(&self, tier: Tier) -> u64 {
+        tier.pick(4_000, 100_000)
+    }
+    fn classify(&self, c: &EofCase) -> Vec<&'static str> {
+        vec!["nontrivial", if c.half_close { "half-close" } else { "dropped-connection" }]
+    }
+    fn required_classes(&self) -> Vec<&'static str> {
+        vec!["nontrivial", "half-close", "dropped-connection"]
+    }
+    fn check(&self, c: &EofCase) -> Verdict {
+        let c = c.clone();
+        aio::block_on_paused(async move {
+            aio::skew_clock().await;
+            let herr = |e: String| engine::Violation { sig: "harness:c08".into(), msg: e };
+            let world = CoreSpec::default().build().map_err(herr)?;
+            let scripted = Scripted::new(|_| Outcome::Echo);
+            let _g = scripted.install(&world);
+            let (mut io, rec, srv) = world.serve_recorded(Proto::Http1, ChannelView::Tunnel, "main.x", engine::world::peer_v4(), 64 * 1024);
+            let head = c.head.head();
+            let stop = 1 + idx(c.stop, head.len() - 1); // 1 ..= len-1
+            let prefix = &head[..stop];
+            let mut cuts: Vec<usize> = c.cuts.iter().map(|x| 1 + idx(*x, prefix.len().saturating_sub(1).max(1))).filter(|x| *x < prefix.len()).collect();
+            cuts.sort();
+            cuts.dedup();
+            cuts.push(prefix.len());
+            let mut prev = 0;
+            for cut in cuts {
+                if io.write_all(&prefix[prev..cut]).await.is_err() {
+                    break; // the endpoint has already refused what it got and closed
+                }
+                prev = cut;
+                tokio::time::sleep(Duration::from_millis(20)).await;
+            }
+            let what = format!("{} of {} head bytes ({:?}...), then {}", stop, head.len(), String::from_utf8_lossy(&prefix[..prefix.len().min(30)]), if c.half_close { "the client ends its sending direction" } else { "the client drops the connection" });
+            let mut reply = vec![];
+            if c.half_close {
+                let _ = io.shutdown().await;
+                let (more, _) = read_to_end(&mut io, Duration::from_secs(5)).await;
+                reply = more;
+            } else {
+                drop(io);
+            }
+            let ended = tokio::time::timeout(Duration::from_secs(5), srv).await.is_ok();
+            let eof_reads = rec.eof_reads.load(std::sync::atomic::Ordering::SeqCst);
+            ensure!(
+                eof_reads <= 3,
+                "h1:spins-on-end-of-stream-inside-head",
+                "{}: the endpoint read the finished stream {} times{}",
+                what,
+                eof_reads,
+                if eof_reads >= 1000 { " (a loop that never yields: only the harness's failing 1000th read ended it)" } else { "" }
+            );
+            ensure!(ended, "h1:session-survives-end-of-stream", "{}: the session is still there 5 s later", what);
+            ensure!(scripted.events().iter().all(|e| !matches!(e, Event::TcpConnect(_))), "h1:request-recognised-in-incomplete-head", "{}: the forwarder was called", what);
+            ensure!(!reply.starts_with(b"HTTP/1.1 2"), "h1:request-recognised-in-incomplete-head", "{}: answered {:?}", what, String::from_utf8_lossy(&reply[..reply.len().min(40)]));
+            Ok(())
+        })
     }
 }
